@@ -9,6 +9,9 @@ import (
 	"bufio"
 	"bytes"
 	"context"
+	"crypto/tls"
+	"crypto/x509"
+	"crypto/x509/pkix"
 	"errors"
 	"io"
 	"net"
@@ -451,8 +454,38 @@ func (k *Conn) SetReadDeadline(t time.Time) error {
 	return nil
 }
 
+// TLSConn is what a server holds after accepting a TLS client: a connection
+// with ConnectionState(), addresses and deadlines. The handshake is complete;
+// as on most servers the client presented no certificate (one time in four it
+// did). Remote addresses may be nil (a pipe, a unix socket without a name).
+type TLSConn struct {
+	*Conn
+	State  tls.ConnectionState
+	Remote net.Addr
+}
+
+func (k *TLSConn) ConnectionState() tls.ConnectionState { return k.State }
+func (k *TLSConn) RemoteAddr() net.Addr                 { return k.Remote }
+func (k *TLSConn) LocalAddr() net.Addr                  { return &net.TCPAddr{IP: net.IPv4(127, 0, 0, 1), Port: 8883} }
+func (k *TLSConn) SetDeadline(t time.Time) error        { return k.Conn.SetReadDeadline(t) }
+func (k *TLSConn) SetWriteDeadline(time.Time) error     { return nil }
+func (k *TLSConn) Write(p []byte) (int, error)          { return len(p), nil }
+
+func NewTLSConn(c *sim.Ctx, r *Reader) *TLSConn {
+	k := &TLSConn{Conn: &Conn{R: r}, State: tls.ConnectionState{Version: tls.VersionTLS13, HandshakeComplete: true, ServerName: "broker.example"}}
+	if c.T.Bool(1, 4) {
+		k.State.PeerCertificates = []*x509.Certificate{{Subject: pkix.Name{CommonName: "device-7"}}}
+	}
+	if c.T.Bool(1, 2) {
+		k.Remote = &net.TCPAddr{IP: net.IPv4(10, 0, 0, 7), Port: 50000 + c.T.Int(1000)}
+	}
+	return k
+}
+
 func WrapReader(c *sim.Ctx, r *Reader) (io.Reader, string) {
-	switch c.T.Pick(6, 1, 1, 1, 1, 1, 1, 1) {
+	switch c.T.Pick(6, 1, 1, 1, 1, 1, 1, 1, 1) {
+	case 8:
+		return NewTLSConn(c, r), "TLS server connection (ConnectionState, addresses, deadlines)"
 	case 7:
 		slack := 1 + c.T.Int(3)
 		if r.EndErr == io.EOF && r.limit == len(r.data) && c.T.Bool(1, 2) {
